@@ -240,7 +240,7 @@ def _order_uses(f, node, out, via=None, depth=0):
                 return
             if name in ("isin",):
                 return
-            if name in ("str", "repr", "format") and isinstance(fn, ast.Name):
+            if (name in ("str", "repr", "format") and isinstance(fn, ast.Name)) or (name == "format" and isinstance(fn, ast.Attribute)):
                 # formatting a set: judge what the text is used for (an error / log message is harmless, a key or a column name is not)
                 _order_uses(f, p, out, via, depth + 1)
                 return
